@@ -50,6 +50,8 @@ pub struct Scenario {
     pub max_cost: f64,
     pub depth: usize,
     pub include_interp: bool,
+    /// stroke / parking poses handed to the planner with the negated quaternion (same rotation)
+    pub negate: Vec<bool>,
 }
 
 pub fn ref_tcp(cell: &Cell, q: &[f64; 6]) -> Fr {
@@ -89,6 +91,16 @@ pub fn gen_scenario(rng: &mut Rng, idx: u64, for_schedules: bool) -> Option<Scen
     }
     if seeds.iter().any(|s| probe.collides(s) || s.iter().any(|x| x.abs() > 2.9)) {
         return None;
+    }
+    // one scenario in eight repeats a given pose exactly (park == last stroke pose, a stroke pose listed
+    // twice, or the first stroke pose == landing pose): it must still appear with its own flag
+    if rng.usize(8) == 0 {
+        let k = match rng.usize(3) {
+            0 => seeds.len() - 1,
+            1 => 1,
+            _ => 1 + rng.usize(seeds.len() - 1),
+        };
+        seeds[k] = seeds[k - 1];
     }
     let poses: Vec<Fr> = seeds.iter().map(|s| ref_tcp(&cell, s)).collect();
     // schedule scenarios: mostly an obstacle that blocks one IK branch mid-stroke while others stay free
@@ -148,6 +160,8 @@ pub fn gen_scenario(rng: &mut Rng, idx: u64, for_schedules: bool) -> Option<Scen
         max_cost: if sparse { rng.range(25.0, 45.0f64).to_radians() } else { rng.range(1.0, 10.0f64).to_radians() },
         depth: rng.usize(9),
         include_interp: rng.bool(0.6),
+        // a quarter of the scenarios hands some poses over as -q instead of q
+        negate: { let flip = rng.bool(0.25); (0..n_steps + 1).map(|_| flip && rng.bool(0.5)).collect() },
     })
 }
 
@@ -155,7 +169,7 @@ fn scenario_json(s: &Scenario) -> serde_json::Value {
     let pj = |f: &Fr| json!({"r": f.r, "p": f.p});
     json!({"cell": s.cell.json(), "from": jf(&s.from), "land": pj(&s.land), "steps": s.steps.iter().map(pj).collect::<Vec<_>>(), "park": pj(&s.park),
            "seeds": s.seeds.iter().map(|q| jf(q)).collect::<Vec<_>>(), "layout": s.layout, "start_class": s.start_class,
-           "check_step_m": s.check_step_m, "check_step_rad": s.check_step_rad, "max_transition_cost": s.max_cost, "linear_recursion_depth": s.depth, "include_linear_interpolation": s.include_interp})
+           "check_step_m": s.check_step_m, "check_step_rad": s.check_step_rad, "max_transition_cost": s.max_cost, "linear_recursion_depth": s.depth, "include_linear_interpolation": s.include_interp, "poses_given_with_negated_quaternion": s.negate})
 }
 
 pub struct PlanRun {
@@ -206,8 +220,13 @@ pub fn run_plan(s: &Scenario, pool: Option<&rayon::ThreadPool>, delay_seed: Opti
             include_linear_interpolation: s.include_interp,
             debug: false,
         };
-        let steps: Vec<_> = s.steps.iter().map(fr_to_iso).collect();
-        let call = || guarded(|| planner.plan(&s.from, &fr_to_iso(&s.land), steps.clone(), &fr_to_iso(&s.park)));
+        let neg = |f: &Fr, n: bool| {
+            let i = fr_to_iso(f);
+            if n { Iso::from_parts(i.translation, nalgebra::Unit::new_unchecked(-i.rotation.into_inner())) } else { i }
+        };
+        let steps: Vec<_> = s.steps.iter().enumerate().map(|(k, f)| neg(f, s.negate.get(k).copied().unwrap_or(false))).collect();
+        let park = neg(&s.park, s.negate.last().copied().unwrap_or(false));
+        let call = || guarded(|| planner.plan(&s.from, &fr_to_iso(&s.land), steps.clone(), &park));
         match pool {
             Some(p) => p.install(call),
             None => call(),
@@ -388,8 +407,51 @@ pub fn check_plan(mon: &mut Mon, s: &Scenario, robot: &KinematicsWithShape, path
     ok
 }
 
+/// Trace specification over the spy log: every pose the planner asked the IK for (the given poses, the
+/// densified ones and the bisection midposes) must lie on the straight segment between two consecutive
+/// given poses, with its rotation on the geodesic between theirs. This holds whether or not planning
+/// succeeds, so it also sees densification faults that only make planning fail.
+fn check_requested_poses(mon: &mut Mon, s: &Scenario, log: &Vec<Event>) {
+    let anchors: Vec<Fr> = std::iter::once(s.land).chain(s.steps.iter().cloned()).chain(std::iter::once(s.park)).collect();
+    let mut worst = (0.0f64, 0.0f64);
+    for e in log {
+        let p = match (&e.pose, e.method) {
+            (Some(p), crate::spy::Method::Continuing) | (Some(p), crate::spy::Method::Inverse) => iso_to_fr(p),
+            _ => continue,
+        };
+        mon.count("requested_poses_checked");
+        let mut best = (f64::INFINITY, f64::INFINITY);
+        for w in anchors.windows(2) {
+            let (a, b) = (&w[0], &w[1]);
+            let ab = sub(b.p, a.p);
+            let l2 = dot(ab, ab);
+            let t = if l2 > 0.0 { (dot(sub(p.p, a.p), ab) / l2).max(0.0).min(1.0) } else { 0.0 };
+            let off = norm(sub(p.p, add(a.p, scale(ab, t))));
+            let geo = rot_angle(&a.r, &p.r) + rot_angle(&p.r, &b.r) - rot_angle(&a.r, &b.r);
+            if off <= 2e-6 && geo < best.1 {
+                best = (off, geo);
+            } else if best.0.is_infinite() && off < best.0 {
+                best.0 = off;
+            }
+        }
+        if !(best.0 <= 2e-6 && best.1 <= 1e-5) {
+            mon.violation(
+                if best.0 <= 2e-6 { "requested-pose:rotation-off-the-geodesic" } else { "requested-pose:off-the-segments" },
+                "the planner asked the IK for a pose that does not lie between two consecutive given poses",
+                json!({"scenario": scenario_json(s), "pose": {"r": p.r, "p": p.p}, "best_segment_offset": best.0, "excess_rotation": if best.1.is_finite() { json!(best.1) } else { json!(null) }}),
+            );
+            return;
+        }
+        worst = (worst.0.max(best.0), worst.1.max(best.1));
+    }
+    mon.max("requested_pose_segment_offset", worst.0);
+    mon.max("requested_pose_excess_rotation", worst.1);
+    mon.held();
+}
+
 fn plans(idx: u64, mon: &mut Mon, s: &Scenario) {
     let (run, robot) = run_plan(s, None, None);
+    check_requested_poses(mon, s, &run.spy_log);
     mon.count(&format!("layout.{}", s.layout));
     mon.count(&format!("start.{}", s.start_class));
     mon.count("plans.run");
@@ -427,7 +489,7 @@ fn schedules(idx: u64, rng: &mut Rng, mon: &mut Mon, s: &Scenario) {
         return;
     }
     let clone_with_from = |from: [f64; 6]| Scenario { cell: s.cell.clone(), from, land: s.land, steps: s.steps.clone(), park: s.park, seeds: s.seeds.clone(), layout: s.layout, start_class: s.start_class,
-        check_step_m: s.check_step_m, check_step_rad: s.check_step_rad, max_cost: s.max_cost, depth: s.depth, include_interp: s.include_interp };
+        check_step_m: s.check_step_m, check_step_rad: s.check_step_rad, max_cost: s.max_cost, depth: s.depth, include_interp: s.include_interp, negate: s.negate.clone() };
     let pool1 = rayon::ThreadPoolBuilder::new().num_threads(1).build().unwrap();
     // 1. classify the landing solutions. Started AT solution S_i on a one-thread pool, S_i is probed
     //    first and its onboarding is trivial, so "Ok with LAND == S_i" means: the Cartesian part of
